@@ -325,8 +325,82 @@ def fragment_types(res, rnd, n, broken_model, functions=False, stores=False):
     res.streams[label + "-types"] = dict(programs=n, **stats)
 
 
+def fold_types(res, seed, n, broken_model):
+    """the checker model COMPOSED with the folding model against the implementation, on programs full of constants: the
+    implementation checks the program as written, folds it, and reports the static type of the result; the models answer the
+    verdict of `CheckS` on the program as written and the type `CheckS` assigns to what `Fold` answers (driver `tyfold`).
+    This carries the checker-model tie - elsewhere established on programs with nothing to fold - over to programs with
+    constants, and gives the chain: implementation type = tyS (fold p); value = Spec p = Spec (fold p) (Thm/C04Fold); which
+    lies in tyS (fold p) (eval_outcome)."""
+    from gen import foldgen
+    from vlib import driver_run
+    progs = foldgen.generate(seed + 9, n, typed_mut=True, allow_for=False)
+    st = dict(programs=len(progs), same_type=0, same_rejection=0, parse_time_error=0, outside_fragment=0, size_exhaustion=0)
+    impl = harness_run(["prog\tnoexec\t" + esc_field(A.program_src(p)) for p in progs])
+    if broken_model:
+        res.streams["fold-types"] = dict(st, note="model not built")
+        return
+    model = driver_run(["tyfold " + A.program_sexp(p) for p in progs])
+    rel, relmeta = [], []
+    bysrc = {}
+    for p, il, ml in zip(progs, impl, model):
+        res.evaluations += 1
+        src = A.program_src(p)
+        bysrc[src] = p
+        si, sm = sexp_parse(il), sexp_parse(ml)
+        if not (isinstance(sm, list) and len(sm) == 3 and sm[0] == "tyfold"):
+            res.broken.append("correspondence:fold-types: the models could not read `%s`: %s" % (src[:200], ml[:100]))
+            continue
+        v0, v1 = sm[1], sm[2]
+        if not isinstance(si, list) or not si:
+            continue
+        if si[0] == "parse-panic" and "library/alloc" in il:
+            st["size_exhaustion"] += 1          # `[v; MAX]` folded: outside the property
+            continue
+        if v0[0] == "unsup" or v1[0] in ("unsup", "fold-unsup"):
+            st["outside_fragment"] += 1
+            continue
+        if si[0] == "rejected" and len(si) == 2 and si[1] in ("IndexOutOfBounds", "NegativeLength", "ZeroDivision", "ZeroModulo", "OverflowShift"):
+            st["parse_time_error"] += 1         # compared by C04's fold-model stream
+            continue
+        if si[0] == "rejected":
+            if v0[0] == "ill":
+                st["same_rejection"] += 1
+                res.traces_validated += 1
+            else:
+                res.broken.append("correspondence:fold-types: the checker model types `%s` as written, the implementation rejects it: %s" % (src[:300], il[:100]))
+            continue
+        if si[0] != "accepted":
+            res.violation("implementation crashed / panicked on a fragment program `%s`: %s" % (src[:300], il[:200]), dict(program=src, impl=il),
+                          dict(oracle="crash", cls=il[:20]))
+            continue
+        res.nontrivial.add(("fold-types", src))
+        if v0[0] != "ok" or v1[0] != "ok":
+            res.broken.append("correspondence:fold-types: the implementation types `%s` as %s; checker model on the program as written: %s, on the folded program: %s"
+                              % (src[:300], sexp_str(si[1])[:80], sexp_str(v0)[:60], sexp_str(v1)[:60]))
+            continue
+        rel.append("ty rel %s %s" % (sexp_str(si[1]), sexp_str(v1[1])))
+        relmeta.append((src, sexp_str(si[1]), sexp_str(v1[1])))
+    for (src, ti, tm), out in zip(relmeta, driver_run(rel)):
+        if out.startswith("eq=1"):
+            st["same_type"] += 1
+            res.traces_validated += 1
+        else:
+            res.disagreements_checked += 1
+            res.broken.append("correspondence:fold-types: static type of `%s`: implementation %s, checker model on the folded program %s" % (src[:300], ti[:120], tm[:120]))
+            st.setdefault("suspects", []).append(src)
+    # failing-input search: a program on whose static type the models and the implementation disagree is RUN under the monitor
+    suspects = [bysrc[s] for s in st.pop("suspects", [])][:60]
+    if suspects:
+        srecs = P.run_programs(suspects, flags="", broken_model=True)
+        monitor_oracle(res, srecs, "fold-types")
+        st["suspects_run"] = len(srecs)
+    res.streams["fold-types"] = st
+
+
 def run(res, tier, seed, broken_model):
     rnd = random.Random(seed)
+    fold_types(res, seed, 1200 if tier == "quick" else 30000, broken_model)
     fragment_types(res, random.Random(seed + 3), 3000 if tier == "quick" else 40000, broken_model)
     fragment_types(res, random.Random(seed + 4), 2500 if tier == "quick" else 30000, broken_model, functions=True)
     fragment_types(res, random.Random(seed + 5), 2500 if tier == "quick" else 30000, broken_model, stores=True)
